@@ -134,7 +134,14 @@ void *zone_malloc(zone_malloc_t *gdata, size_t size)
     int nb_units;
     zone_malloc_chunk_list_t* fl;
 
-    nb_units = (size + gdata->unit_size - 1) / gdata->unit_size;
+    {
+        /* Count the units in size_t: the count of a huge request must not be
+         * truncated (to a small or negative int) before it is compared. */
+        size_t units = size / gdata->unit_size + (0 != (size % gdata->unit_size));
+        if( units > (size_t)gdata->max_segment )
+            return NULL;
+        nb_units = (int)units;
+    }
 
     if (nb_units == 0) {
         return NULL;
